@@ -6,7 +6,9 @@ package main
 // subset of the explored outcomes; for programs marked Exact the two sets must be equal.
 
 import (
+	"context"
 	"fmt"
+	"runtime"
 	"sort"
 	"strings"
 	"sync"
@@ -23,7 +25,7 @@ type Prog struct {
 // Deterministic names the programs whose outcome does not depend on the schedule (one goroutine, or every
 // order leads to the same result): for these a model that shows a second outcome is wrong, whatever the sample.
 var Deterministic = map[string]bool{"buffered-fifo": true, "close-then-drain": true, "send-after-close-panics": true,
-	"close-twice-panics": true, "close-nil-panics": true, "select-nil-channel-never": true, "close-detaches-parked-sender": true, "atomic-value-panics": true, "rwmutex-try": true, "cond-signal-broadcast": true, "once-value": true}
+	"close-twice-panics": true, "close-nil-panics": true, "select-nil-channel-never": true, "close-detaches-parked-sender": true, "atomic-value-panics": true, "rwmutex-try": true, "cond-signal-broadcast": true, "once-value": true, "ticker-drops-unread-ticks": true, "ticker-reset": true, "context-cancel-propagates": true, "context-already-expired": true}
 
 type rec struct {
 	mu sync.Mutex
@@ -580,6 +582,83 @@ var Programs = []Prog{
 		default:
 			return fmt.Sprint(got, stopped, " empty")
 		}
+	}},
+	{"ticker-ticks-then-stop", true, func() string {
+		tk := time.NewTicker(3 * time.Millisecond)
+		a := time.Now()
+		<-tk.C
+		<-tk.C
+		el := time.Since(a) >= 6*time.Millisecond
+		tk.Stop()
+		select {
+		case <-tk.C:
+			return fmt.Sprint(el, " tick after Stop")
+		case <-time.After(20 * time.Millisecond):
+			return fmt.Sprint(el, " quiet")
+		}
+	}},
+	{"ticker-drops-unread-ticks", true, func() string {
+		tk := time.NewTicker(time.Millisecond)
+		time.Sleep(15 * time.Millisecond)
+		tk.Stop()
+		n := 0
+		for {
+			select {
+			case <-tk.C:
+				n++
+				continue
+			default:
+			}
+			break
+		}
+		return fmt.Sprint(n)
+	}},
+	{"ticker-reset", true, func() string {
+		tk := time.NewTicker(time.Hour)
+		tk.Reset(2 * time.Millisecond)
+		<-tk.C
+		tk.Stop()
+		return "ticked"
+	}},
+	{"context-timeout", true, func() string {
+		ctx, cancel := context.WithTimeout(context.Background(), 2*time.Millisecond)
+		defer cancel()
+		_, has := ctx.Deadline()
+		select {
+		case <-ctx.Done():
+			return fmt.Sprint(ctx.Err(), has)
+		case <-time.After(time.Minute):
+			return "late"
+		}
+	}},
+	{"context-cancel-propagates", true, func() string {
+		parent, cancel := context.WithCancel(context.Background())
+		child, cancel2 := context.WithTimeout(context.WithValue(parent, "k", 1), time.Hour)
+		defer cancel2()
+		before := child.Err()
+		go cancel()
+		<-child.Done()
+		return fmt.Sprint(before, child.Err(), parent.Err(), child.Value("k"))
+	}},
+	{"context-already-expired", true, func() string {
+		ctx, cancel := context.WithTimeout(context.Background(), -time.Second)
+		defer cancel()
+		select {
+		case <-ctx.Done():
+			return fmt.Sprint(ctx.Err())
+		default:
+			return "not done"
+		}
+	}},
+	{"gosched-lets-the-other-run", true, func() string {
+		var r rec
+		var wg sync.WaitGroup
+		wg.Add(1)
+		go func() { r.add("other"); wg.Done() }()
+		runtime.Gosched()
+		r.add("caller")
+		wg.Wait()
+		return r.String()
 	}},
 	{"after-does-not-block-firing", true, func() string {
 		t := time.After(1 * time.Millisecond)
